@@ -357,3 +357,113 @@ def c20(pid, tier, replay):
         "one row per (process tree shape, cancel instant, trigger); distinct = distinct rows",
         ["wall-clock bounds use the kill timeout (400 ms) + 1.5 s latency allowance", "10 tree shapes, not all shell programs"],
         row_key=lambda r: r["shape"] + r["trigger"])
+
+
+# ---------------------------------------------------------------------------------------------------------------
+# C13 concurrency: lock discipline probes + consistent snapshots + race detector (declared auxiliary oracle)
+
+def c13(pid, tier, replay):
+    t0 = time.time()
+    clean_replays(pid)
+    with scratch("verif-c13-") as work:
+        copy_specs(work, {"LockDiscipline.tla", "LockDiscipline.cfg", "LockUndisciplined.cfg", "RowsLock.tla", "RowsLock.cfg"})
+        rc, out = tlc(work, "LockDiscipline.tla", "LockDiscipline.cfg", workers=2, timeout=300)
+        st = tlc_stats(out)
+        if "No error has been found" not in out:
+            raise Infra("LockDiscipline.tla check failed:\n" + out[-2000:])
+        rc, out2 = tlc(work, "LockDiscipline.tla", "LockUndisciplined.cfg", workers=2, timeout=300)
+        if "NoConflict is violated" not in out2:
+            raise Infra("negative control (mutation under the read lock) was not rejected")
+        probe = build_probe("concprobe", work, race=True)
+        env = dict(os.environ, VERIF_TIER=tier, VERIF_SEED=str(seed()), GORACE="halt_on_error=0 history_size=3",
+                   VERIF_ROWS_LOCK=os.path.join(work, "lock_rows.ndjson"), VERIF_ROWS_LOCK_SNAP=os.path.join(work, "lock_snap_rows.ndjson"))
+        p = run([probe, "-test.run", "TestConcurrentClients", "-test.count", "1", "-test.timeout", "0"], env=env, timeout=1500)
+        outp = p.stdout or ""
+        races = []
+        # race reports / runtime faults whose stack contains prunner frames
+        for blk in re.split(r"(?=WARNING: DATA RACE)", outp):
+            if blk.startswith("WARNING: DATA RACE"):
+                blk = blk.split("==================")[0]
+                frames = [l.strip() for l in blk.splitlines() if "github.com/Flowpack/prunner" in l]
+                # a report counts if, in one of the two racing stacks, the first frame outside the Go runtime / standard library
+                # is prunner code (a race inside the harness' own fake runner is the harness' problem)
+                own = False
+                for stack in re.split(r"\n\n", blk):
+                    fr = [l.strip() for l in stack.splitlines() if re.match(r"^\s+\S+\(", l) or re.match(r"^  \S+\.\S+\(", l)]
+                    fr = [x for x in fr if not re.match(r"^(runtime|sync|sync/atomic|internal/\S+|time|os|io|syscall|context)\.", x)]
+                    if fr and "github.com/Flowpack/prunner" in fr[0] and ("by goroutine" in stack or "Previous" in stack or "Read at" in stack or "Write at" in stack):
+                        own = True
+                if frames and own:
+                    races.append({"race": True, "kind": "DATA RACE", "frames": frames[:8]})
+        m = re.search(r"^(fatal error: .*|panic: .*)$", outp, re.M)
+        crashed = False
+        if m:
+            tail = outp[m.start():]
+            frames = [l.strip() for l in tail.splitlines() if "github.com/Flowpack/prunner" in l][:8]
+            if frames:
+                races.append({"race": True, "kind": m.group(1)[:200], "frames": frames})
+                crashed = True
+        if not crashed and ("VERIF-DONE" not in outp or (p.returncode != 0 and not races)):
+            raise Infra("concurrent probe failed:\n" + outp[-3000:])
+        with open(os.path.join(work, "lock_race_rows.ndjson"), "w") as f:
+            f.write(json.dumps({"race": False, "kind": "summary", "frames": []}) + "\n")
+            for r in races:
+                f.write(json.dumps(r) + "\n")
+        for fn in ("lock_rows.ndjson", "lock_snap_rows.ndjson"):
+            pth = os.path.join(work, fn)
+            if not os.path.exists(pth) or os.path.getsize(pth) == 0:
+                open(pth, "w").write(json.dumps({"site": "none", "mutates": False, "writeHeld": True, "anyHeld": True, "n": 0, "what": "no rows (process died)", "ok": True, "info": ""}) + "\n")
+        lock_rows = [json.loads(l) for l in open(os.path.join(work, "lock_rows.ndjson"))]
+        snap_rows = [json.loads(l) for l in open(os.path.join(work, "lock_snap_rows.ndjson"))]
+        viols = []
+        files = {"lock": "lock_rows.ndjson", "snap": "lock_snap_rows.ndjson", "race": "lock_race_rows.ndjson"}
+        for rnd in range(30):
+            rc, out = tlc(work, "RowsLock.tla", "RowsLock.cfg", workers=1, timeout=600)
+            if "No error has been found" in out:
+                break
+            name = tlc_violation(out)
+            if not name:
+                raise Infra("TLC row validation failed:\n" + out[-3000:])
+            stt = last_alias_state(out)
+            kind, line = stt.get("kind", '"lock"').strip('"'), int(stt.get("line", "1"))
+            fn = os.path.join(work, files[kind])
+            lines = open(fn).read().splitlines()
+            viols.append((name, json.loads(lines[line - 1])))
+            del lines[line - 1]
+            open(fn, "w").write("\n".join(lines) + "\n")
+    reported = []
+    seen = set()
+    for name, r in viols:
+        if name == "C13_LockDiscipline":
+            desc = "formula=%s site=%s mutates=%s writeHeld=%s anyHeld=%s" % (name, r["site"], r["mutates"], r["writeHeld"], r["anyHeld"])
+        elif name == "C13_NoRaceReport":
+            desc = "formula=%s %s at %s" % (name, r["kind"], " <- ".join(x.split("(")[0] for x in r["frames"][:3]))
+        else:
+            desc = "formula=%s %s (%s)" % (name, r.get("what"), r.get("info"))
+        key = desc if name != "C13_ConsistentSnapshots" else r.get("what")
+        if key in seen:
+            continue
+        seen.add(key)
+        reported.append((r, write_replay(pid, len(reported) + 1, {"property": pid, "formula": name, "row": r, "desc": desc, "seed": seed()}), desc))
+    nacc = sum(r.get("n", 0) for r in lock_rows)
+    cov = {"explanation": "LockDiscipline.tla (TLC: discipline => no conflicting concurrent access; mutation under the read lock refuted) is bound to the code "
+                          "by lock-mode probes at every access site of PipelineRunner (TryRLock / TryLock from inside the critical section), recorded while "
+                          "8 concurrent clients issue seeded random operations; reader snapshots are checked for consistency; the probe binary is a -race "
+                          "build and data-race reports / runtime faults with prunner frames are rows too (auxiliary oracle named by the property)",
+           "evaluations": nacc, "distinct_nontrivial": len(lock_rows), "rule": "distinct = distinct (site, mutates, lock mode) combinations observed",
+           "samples": lock_rows[:3], "states": st["distinct"] if st else 1, "transitions": st["generated"] if st else 1,
+           "sites": sorted({r["site"] for r in lock_rows}), "snapshots": snap_rows[0].get("what") if snap_rows else "", "race_reports": len(races)}
+    write_evidence(pid, tier, "other", cov, time.time() - t0, violations=len(reported),
+                   assumptions=["unsynchronised accesses at sites without a probe are only found by the race detector on the schedules that happened",
+                                "TryRLock / TryLock can only err towards 'held'"])
+    from checks import known_match
+    rc = 0
+    for r, path, desc in reported[:8]:
+        k = known_match(pid, desc)
+        if k:
+            print("KNOWN-FINDING: property=%s %s" % (pid, k.get("description", desc)))
+            continue
+        print("VIOLATION property=%s replay=%s" % (pid, path))
+        log("  " + desc[:300])
+        rc = 1
+    return rc
